@@ -247,13 +247,16 @@ func (e *SpecEnv) local(name string) (SVal, bool) {
 		return v, true
 	}
 	if e.fr2 != nil {
-		saved := e.fr
-		e.fr = e.fr2
+		// names of callees inlined below the function that supplied the clause, innermost first
+		saved, saved2 := e.fr, e.fr2
+		defer func() { e.fr, e.fr2 = saved, saved2 }()
 		e.fr2 = nil
-		v, ok := e.local1(name)
-		e.fr2 = e.fr
-		e.fr = saved
-		return v, ok
+		for i := len(e.st.frames) - 1; i >= 1; i-- {
+			e.fr = e.st.frames[i]
+			if v, ok := e.local1(name); ok {
+				return v, true
+			}
+		}
 	}
 	return SVal{}, false
 }
@@ -911,6 +914,16 @@ func (e *SpecEnv) callExpr(n *ast.CallExpr) SVal {
 				if ref, ok := e.st.env[a]; ok {
 					T := elemType(a.Type())
 					return SVal{e.st.load(ref, sortOf(T)), T}
+				}
+			}
+			if e.fr2 != nil {
+				for i := len(e.st.frames) - 1; i >= 1; i-- {
+					if a := findAlloc(e.st.frames[i].fn, name); a != nil {
+						if ref, ok := e.st.env[a]; ok {
+							T := elemType(a.Type())
+							return SVal{e.st.load(ref, sortOf(T)), T}
+						}
+					}
 				}
 			}
 			e.fail(n, "no captured variable %s", name)
